@@ -15,7 +15,7 @@ RULE = (
     "seeded random specs encoded into attributes by independent encoders and parsed back by Grid(ds) without coords: "
     "COMODO (1-3 axes of arbitrary names, every position subset containing center, 1-6 cells, both shift signs on "
     "inner/outer, c_grid_axis_shift absent or 0 on center, shuffled dims) and SGRID (1-D, 2-D, 2-D+vertical_dimensions, "
-    "3-D; four padding words; with/without space after ':'; Conventions/conventions; ordinary and hostile dimension "
+    "3-D; four padding words; with/without space after ':'; entries of face/volume_dimensions in the order of node_dimensions or shuffled; Conventions/conventions; ordinary and hostile dimension "
     "names incl. substrings of each other and of 'padding'; optionally contradicting COMODO attributes). Verdicts: axes "
     "and position->dimension mapping equal the spec; diff/interp on the parsed Grid equal the Grid built from the "
     "explicit mapping; SGRID wins over COMODO when declared; user coords + parsed coords are rejected. Class = "
@@ -70,7 +70,8 @@ def gen_case(rng, i, tier):
             c, nd = ident(rng, used, style), ident(rng, used, style)
         spec[a] = {"n": n, "pos": {"center": c, conv.PAD2POS[pad]: nd}}
     return {"conv": "sgrid", "kind": kind, "spec": spec, "style": style, "aseed": rng.getrandbits(31),
-            "with_comodo": rng.random() < 0.25, "conflict": rng.random() < 0.1}
+            "with_comodo": rng.random() < 0.25, "conflict": rng.random() < 0.1,
+            "entry_order": rng.getrandbits(16) if rng.random() < 0.4 else None}
 
 
 def run_case(ctx, desc):
@@ -83,9 +84,9 @@ def run_case(ctx, desc):
         ds = conv.comodo_dataset(spec, rng)
         ckey = ("comodo", sorted(tuple(sorted(ax["pos"])) for ax in spec.values()), desc["style"], min(ax["n"] for ax in spec.values()) == 1)
     else:
-        ds = conv.sgrid_dataset(spec, desc["kind"], rng, with_comodo=desc["with_comodo"])
+        ds = conv.sgrid_dataset(spec, desc["kind"], rng, with_comodo=desc["with_comodo"], entry_order_seed=desc.get("entry_order"))
         ckey = ("sgrid", desc["kind"], [sorted(ax["pos"])[-1] if sorted(ax["pos"])[0] == "center" else sorted(ax["pos"])[0] for ax in spec.values()],
-                desc["style"], desc["with_comodo"])
+                desc["style"], desc["with_comodo"], desc.get("entry_order") is not None)
     want = {a: dict(ax["pos"]) for a, ax in spec.items()}
     nontrivial = any(len(ax["pos"]) > 1 for ax in spec.values())
     ctx.judged(ckey, nontrivial)
